@@ -15,6 +15,7 @@
 
 #include "Compiler/include/compiler.hpp"
 #include "Compiler/include/macro.hpp"
+#include "Compiler/include/parse.hpp"
 #include "Compiler/include/scan.hpp"
 #include "VM/include/vm.hpp"
 
@@ -141,15 +142,32 @@ inline std::string digest_of(const Theo::CodegenResult& cr) {
 }
 
 // per-input watchdog: a call of the code under test that does not return within `secs` ends the process with a {"hang":i} record
-// (exit 75), so that a non-terminating change costs seconds, not the batch timeout
+// (exit 75), so that a non-terminating change costs seconds, not the batch timeout.  Macro expansion is the one place where legitimate
+// work can be very long (its cost grows with the fourth power of the pass budget on self-feeding macros): when the pass counter of the
+// hook Theo::verif_macro_passes has advanced since the last alarm the run is progressing, not hanging - the alarm is re-armed up to
+// `ext` times and then the input is given up as {"slow":i} (exit 76), which is counted but is no verdict either way
 inline volatile long g_watch_case = -1;
+inline volatile unsigned long g_watch_pass = 0, g_watch_pass0 = 0;
+inline volatile int g_watch_secs = 0, g_watch_ext = 0;
 inline void on_watch_alarm(int) {
-  char buf[64];
-  int n = snprintf(buf, sizeof buf, "{\"hang\":%ld}\n", (long)g_watch_case);
+  unsigned long now = Theo::verif_macro_passes.load(std::memory_order_relaxed);
+  bool progress = g_watch_ext >= 0 && now != g_watch_pass;       // ext < 0: plain watchdog, any overrun is a hang
+  if (progress && g_watch_ext > 0) {
+    g_watch_pass = now;
+    g_watch_ext = g_watch_ext - 1;
+    alarm(g_watch_secs);
+    return;
+  }
+  char buf[96];
+  int n = snprintf(buf, sizeof buf, progress ? "{\"slow\":%ld,\"passes\":%lu}\n" : "{\"hang\":%ld,\"passes\":%lu}\n", (long)g_watch_case, now - g_watch_pass0);
   if (write(1, buf, n)) {}
-  _exit(75);
+  _exit(progress ? 76 : 75);
 }
-inline void watch(long i, int secs) { g_watch_case = i; signal(SIGALRM, on_watch_alarm); alarm(secs); }
+inline void watch(long i, int secs, int ext = -1) {
+  g_watch_case = i; g_watch_secs = secs; g_watch_ext = ext;
+  g_watch_pass = g_watch_pass0 = Theo::verif_macro_passes.load(std::memory_order_relaxed);
+  signal(SIGALRM, on_watch_alarm); alarm(secs);
+}
 inline void unwatch() { alarm(0); }
 
 typedef int (*cmd_fn)(int, char**);
